@@ -184,12 +184,18 @@ def cases(draw, tier, satisfied=False):
         # x * (always y) > 0,  -(once y),  abs(x) - (eventually[0,2] y) <= 1
         v1, v2 = ('var', draw(st.sampled_from(vs))), ('var', draw(st.sampled_from(vs)))
         b = draw(st.integers(0, 3))
-        inner = draw(st.sampled_from([v2, ('pred', '>=', v2, ('const', 0.0)), ('un', 'abs', v2)]))
+        pq = (('pred', '>=', v2, ('const', 0.0)), ('pred', draw(st.sampled_from(['>=', '<'])), v1, ('const', draw(st.sampled_from([0.0, 1.0])))))
+        inner = draw(st.sampled_from([v2, ('pred', '>=', v2, ('const', 0.0)), ('un', 'abs', v2),
+                                      # a Boolean connective below the temporal operator: as a number, the term depends on both operands
+                                      ('bin', 'or', pq[0], pq[1]), ('bin', 'and', pq[0], pq[1]), ('bin', 'implies', pq[0], pq[1])]))
         t = draw(st.sampled_from([('un', draw(st.sampled_from(['always', 'eventually', 'once', 'historically'])), inner),
                                   ('tun', draw(st.sampled_from(['always', 'eventually', 'once', 'historically'])), draw(st.integers(0, b)), b, inner)]))
         term = draw(st.sampled_from([('bin', '*', v1, t), ('bin', '-', v1, t), ('bin', '-', t, v1), ('un', 'neg', t), ('bin', '*', t, ('un', 'neg', v1)),
                                      ('un', 'abs', t), ('bin', '+', t, v1), ('bin', '/', v1, ('bin', '+', ('un', 'abs', t), ('const', 1.0)))]))
-        g = term if draw(st.integers(0, 3)) == 0 else ('pred', draw(st.sampled_from(['>', '>=', '<', '<='])), term, ('const', draw(st.sampled_from([0.0, 1.0]))))
+        g = term if draw(st.integers(0, 3)) == 0 else ('pred', draw(st.sampled_from(['>', '>=', '<', '<='])), term, ('const', draw(st.sampled_from([0.0, 1.0, 2.0]))))
+        if draw(st.integers(0, 4)) == 0:
+            # ... or the temporal formula as an operand of iff / xor
+            g = ('bin', draw(st.sampled_from(['iff', 'xor'])), t, ('pred', '>=', v1, ('const', draw(st.sampled_from([0.0, 2.0])))))
         k = draw(st.integers(0, 3))
         f = [g, ('un', 'not', g), ('bin', draw(st.sampled_from(['and', 'or', 'implies'])), g, f), ('un', draw(st.sampled_from(['always', 'eventually'])), g)][k]
     n = draw(F.trace_lengths(8))
